@@ -15,18 +15,21 @@ theorem digit_ne {c d : Char} (hc : isDigit c = true) (hd : isDigit d = false) :
   intro h; subst h; rw [hc] at hd; cases hd
 
 theorem letter_not_digit {c : Char} (hc : isLetter c = true) : isDigit c = false := by
-  simp only [isLetter, isDigit, Bool.or_eq_true, Bool.and_eq_true, decide_eq_true_eq] at hc ⊢
-  simp only [Bool.and_eq_false_iff, decide_eq_false_iff_not]
+  simp only [isLetter, Bool.or_eq_true, Bool.and_eq_true, decide_eq_true_eq] at hc
   have h9 : ('9' : Char).val.toNat = 57 := by decide
   have ha : ('a' : Char).val.toNat = 97 := by decide
   have hA : ('A' : Char).val.toNat = 65 := by decide
-  rcases hc with ⟨h1, _⟩ | ⟨h1, _⟩
-  · right; intro h
+  rcases hc with (⟨h1, _⟩ | ⟨h1, _⟩) | hx
+  · simp only [isDigit, Bool.and_eq_false_iff, decide_eq_false_iff_not]
+    right; intro h
     have := Char.le_def.mp h1; have := Char.le_def.mp h
     simp [UInt32.le_iff_toNat_le] at *; omega
-  · right; intro h
+  · simp only [isDigit, Bool.and_eq_false_iff, decide_eq_false_iff_not]
+    right; intro h
     have := Char.le_def.mp h1; have := Char.le_def.mp h
     simp [UInt32.le_iff_toNat_le] at *; omega
+  · simp only [extraLetters, List.contains_eq_mem, List.mem_cons, List.not_mem_nil, or_false, decide_eq_true_eq] at hx
+    rcases hx with rfl | rfl | rfl | rfl | rfl | rfl | rfl | rfl | rfl | rfl | rfl <;> decide
 
 /-! ### `spanWhile` -/
 
